@@ -133,7 +133,7 @@ def run_dev(ctx, method, shape, with_loop=False):
             if obl.exit is None and f"[{sg[0]}]" in obl.name and "iteration" in obl.name: return k + 1
             if obl.exit is not None and sg[1] in obl.exit.cond.sexpr(): return k + 1
         return 0
-    ctx.replayer = native.device_replayer(method, dev, start_heaps, scripts, seg_of)
+    ctx.replayer = native.device_replayer(method, dev, start_heaps, scripts, seg_of, cat_of=lambda heap: cat(heap, dev))
     return dev, h0, C0, exits, x
 
 
